@@ -637,6 +637,24 @@ def array_index_rule(ext, child_type):
     raise ValueError(f'{owner.__name__} overrides _check_indices')
 
 
+def cp_array_bounds(ext):
+    """length bounds in force when a SerializableCPArray is built: its __init__ calls SerializableArray.__init__ (which runs
+    set_array) WITHOUT minimum_length / maximum_length and narrows the bounds only afterwards, so construction checks the
+    defaults of SerializableArray; `_check_indices` then indexes entries 0..3 (IndexError below four entries) and touches no other"""
+    from sarpy.io.xml.base import SerializableArray
+    fn = ast.parse(textwrap.dedent(inspect.getsource(ext.__init__))).body[0]
+    calls = [n for n in ast.walk(fn) if isinstance(n, ast.Call) and isinstance(n.func, ast.Attribute) and n.func.attr == '__init__'
+             and isinstance(n.func.value, ast.Call) and getattr(n.func.value.func, 'id', None) == 'super']
+    if len(calls) != 1:
+        raise ValueError('SerializableCPArray.__init__: expected one super().__init__ call')
+    kws = {k.arg for k in calls[0].keywords}
+    if 'minimum_length' in kws or 'maximum_length' in kws:
+        lo = hi = 4
+    else:
+        lo, hi = SerializableArray._default_minimum_length, SerializableArray._default_maximum_length
+    return max(lo, 4), max(hi, 4), 4
+
+
 def derived_prop(c, attr, d):
     """a read-only property listed in _fields: ('count', src field) | ('const', value) | ('which', fields) | (None, why)"""
     nm, b, why = match(c, d.fget, 'count_a', 'count_b', 'const', 'which')
@@ -823,9 +841,16 @@ def field_rows(c, ctx, cinfo=None):
                     labels = []
             else:
                 labels = []
+            minlen, maxlen = int(getattr(d, 'minimum_length', 0)), int(getattr(d, 'maximum_length', 2 ** 32))
+            idxlimit = 2 ** 32
+            if ext.__name__ == 'SerializableCPArray':
+                try:
+                    minlen, maxlen, idxlimit = cp_array_bounds(ext)
+                except Exception as e:
+                    return None, f'array field {attr}: {e}'
             row.update(kind='array', cls=d.child_type, cctx=ns, tag=(ns, base_tag), ptag=(ns, base_tag),
                        ctag=(ns, ct), pctag=(par_child_ns, ct), size=size_attr, psize='size', container=ext.__name__,
-                       minlen=int(getattr(d, 'minimum_length', 0)), maxlen=int(getattr(d, 'maximum_length', 2 ** 32)),
+                       minlen=minlen, maxlen=maxlen, idxlimit=idxlimit,
                        idxpos=idxpos, idxname=idx_name if idxpos is not None else None, labels=labels,
                        index_var=(ext._index_var_name if ext._set_index else None))
         else:
@@ -1198,7 +1223,7 @@ def lean_text(info):
                 ip = 'none' if r['idxpos'] is None else f'(some {r["idxpos"]})'
                 lb = '[' + ', '.join(str(consts.get('str ' + l)) for l in r['labels']) + ']'
                 kk = (f'.array {r["cid"]} {{ childTag := {qn(r["ctag"])}, pChildTag := {qn(r["pctag"])}, sizeAttr := {sz}, '
-                      f'pSizeAttr := (0, {tags.get(r["psize"])}), minLen := {r["minlen"]}, maxLen := {r["maxlen"]}, idxPos := {ip}, idxLabels := {lb} }}')
+                      f'pSizeAttr := (0, {tags.get(r["psize"])}), minLen := {r["minlen"]}, maxLen := {r["maxlen"]}, idxPos := {ip}, idxLabels := {lb}, idxLimit := {r["idxlimit"]} }}')
             elif k == 'floatarr':
                 kk = (f'.floatArr {{ prim := {PRIM_ID[r["prim"]]}, childTag := {qn(r["ctag"])}, pChildTag := {qn(r["pctag"])}, '
                       f'sizeAttr := (0, {tags.get(r["size"])}), pSizeAttr := (0, {tags.get(r["psize"])}), idxAttr := (0, {tags.get(r["idxattr"])}), base := {r["base"]} }}')
